@@ -48,7 +48,8 @@ def new_op(rng, kind, idn=0, small=False, **over):
             op["degree"] = rng.choice(DEGREES)
             op["chunk"] = rng.choice([1, 2, 3, 5, 8, 13, 32, 64, 100, 256, 1024] if not small else [1, 2, 3, 4, 8, 16])
         else:
-            op["L"] = rng.choice([8, 16, 32, 64, 128, 256] if not small else [8, 16])
+            # requested lengths that are not multiples of 8 are rounded up by the library
+            op["L"] = rng.choice([8, 16, 32, 64, 128, 256, 24, 10, 20, 44, 100] if not small else [8, 16, 12])
             op["interp"] = rng.choice(INTERPS)
             op["F"] = rng.choice([2, 4, 16, 128, 256] + ([1] if op["interp"] in ("Linear", "Nearest") else []))
             op["chunk"] = rng.choice([1, 3, 8, 32, 64, 100, 256, 512, 1024] if not small else [1, 2, 4, 8, 16])
@@ -342,7 +343,7 @@ def impulse_history(rng, kind):
                     Fraction(147, 160), Fraction(4), Fraction(1, 4)])
     n = new_op(rng, kind, r=rj(r), maxrel=rj(Fraction(2)), signal="impulse", T=rng.choice([32, 64]), ch=1,
                probe="dispatch")
-    n["L"] = rng.choice([32, 64, 128, 256])
+    n["L"] = rng.choice([32, 64, 128, 256, 40, 50, 100])
     n["F"] = rng.choice([16, 128, 256])
     n["interp"] = rng.choice(["Cubic", "Linear", "Quadratic"])
     n["chunk"] = rng.choice([128, 256, 512])
